@@ -1,9 +1,85 @@
 import PraatModel.Proto
+import PraatModel.Numeric
 
-/-! # driver operations for C20: numeric series helpers (extension point of `Run.lean`) -/
+/-! # driver operations for C20: numeric series helpers (extension point of `Run.lean`)
 
+* `stepfilt <f> <n> <x1..xn> <window> <pad>`  → `ok <n> <y1..yn>`; `<f>` names the filter function handed to
+  `_stepFilter`: `median` (= `medianFilter`), `first`, `last`, `center`, `max`, `min`, `sum`
+* `pitch <one> <n> <x1..xn> <w|N> <filterZero>` → `ok <max> <min> <range>` (the selected / subtracted components
+  of `getPitchMeasures`; mean, variance, std are oracle-only); `<one>` is the number 1 in the run's encoding
+* `detectF <thr> <n> (<t> <p>)*` → `ok <k> (<t> <ratio>)*` — F run only: numbers are binary64 bit patterns and
+  the arithmetic is Lean's `Float`
+* `detectX <a> <b> <n> (<t> <p>)*` → `ok <k> <t>*` — X run only: threshold `a/b`, exact rational arithmetic
+* `load <undef|N> <r> (<m> (<field> <num|N>)*)*` → `ok <k> (<m> <v>*)*`; `float()` is the table sent with the fields
+-/
+
+namespace RunNumeric
+
+def numList {α} [Proto α] : P (List α) := do let n ← P.nat; P.many n P.time
+def outList {α} [Proto α] (xs : List α) : String := Out.join (toString xs.length :: xs.map Out.time)
+
+/-- the filter functions the harness can name on both sides -/
+def filterByName {α : Type} [LT α] [LE α] [DecidableLT α] [DecidableLE α] [Add α] [Tm α] (name : String) :
+    Option (List α → α) :=
+  letI : Inhabited α := ⟨Tm.zero⟩
+  match name with
+  | "median" => some Numeric.median
+  | "first" => some fun w => w.headD Tm.zero                       -- w[0]
+  | "last" => some fun w => w.getLastD Tm.zero                     -- w[-1]
+  | "center" => some fun w => w.getD (w.length / 2) Tm.zero        -- w[len(w) // 2]
+  | "max" => some fun w => (pyMaxList w).getD Tm.zero              -- max(w)
+  | "min" => some fun w => (pyMinList w).getD Tm.zero              -- min(w)
+  | "sum" => some fun w => w.foldl (· + ·) Tm.zero                 -- sum(w)
+  | _ => none
+
+/-- F run: the run's numbers are binary64 bit patterns -/
+def asFloat {α} [Proto α] (x : α) : Float := Float.ofBits (Proto.toP x).toNat.toUInt64
+def floatBits (f : Float) : String := toString f.toBits.toNat
+
+def outExc {β} (f : β → String) : Except Err β → String := Out.exc f
+
+end RunNumeric
+
+open RunNumeric in
 /-- `none` = not an operation of this group.  `α` is the number type of the run (`Float` or `Int`). -/
 def runOpNumeric (α : Type) [LT α] [LE α] [DecidableLT α] [DecidableLE α] [BEq α] [Add α] [Sub α] [Tm α] [Proto α]
     (op : String) : Option (P String) :=
+  letI : Inhabited α := ⟨Tm.zero⟩
   match op with
+  | "stepfilt" => some do
+    let name ← P.tok
+    let xs ← numList (α := α); let w ← P.nat; let pad ← P.bool
+    match filterByName (α := α) name with
+    | none => throw s!"unknown filter function {name}"
+    | some f => pure ("ok " ++ outList (Numeric.stepFilter f xs w pad))
+  | "pitch" => some do
+    let one ← P.time (α := α)
+    let xs ← numList (α := α); let w ← P.opt P.nat; let fz ← P.bool
+    -- int(v) == 0  iff  -1 < v < 1
+    let intIsZero : α → Bool := fun v => decide (Tm.zero - one < v) && decide (v < one)
+    let dummy : Numeric.PitchArith α := ⟨fun _ => Tm.zero, fun _ _ => Tm.zero, fun _ => Tm.zero⟩
+    let (_, mx, mn, rg, _, _) := Numeric.getPitchMeasures dummy intIsZero xs w fz
+    pure s!"ok {Out.time mx} {Out.time mn} {Out.time rg}"
+  | "detectF" => some do
+    let thr ← P.time (α := α); let n ← P.nat
+    let pl ← P.many n (do let t ← P.time (α := α); let p ← P.time (α := α); pure (t, asFloat p))
+    pure (outExc (fun r => Out.join (toString r.length :: r.map fun (t, q) => Out.time t ++ " " ++ floatBits q))
+      (Numeric.detectPitchErrors pl (asFloat thr)))
+  | "detectX" => some do
+    let a ← P.int; let b ← P.int; let n ← P.nat
+    let pl ← P.many n (do let t ← P.time (α := α); let p ← P.int; pure (t, (p : Rat)))
+    pure (outExc (fun r => Out.join (toString r.length :: r.map fun (t, _) => Out.time t))
+      (Numeric.detectPitchErrors pl ((a : Rat) / (b : Rat))))
+  | "load" => some do
+    let undef ← P.opt (P.time (α := α)); let r ← P.nat
+    let rows ← P.many r (do
+      let m ← P.nat
+      P.many m (do let s ← P.str; let v ← P.opt (P.time (α := α)); pure (s, v)))
+    let table := rows.flatten
+    let float : String → Except Err α := fun s =>
+      match table.lookup s with
+      | some (some v) => .ok v
+      | _ => .error .ValueError
+    pure (outExc (fun out => Out.join (toString out.length :: out.map outList))
+      (Numeric.loadTimeSeriesData float undef (rows.map (·.map (·.1)))))
   | _ => none
